@@ -10,7 +10,7 @@ import (
 
 func init() {
 	Register("C14", "Decides, on the per-byte summaries of every state function of the schema-side scanners (notations/jschema/scanner, rules/enum): (nl) LF and CR have identical rows in every state, so the newline convention cannot change the lexeme stream; (blank) in every between-token state SPACE and TAB have identical rows; (norm) rule names are compared only after TrimSpaces().Unquote(), so quoted and bare rule names mean the same; (deleg) re-dispatch of one byte between states terminates. Does NOT decide equality of AST/example/OpenAPI across spellings, nor annotation-style equivalence (// vs /* */).",
-		c14nl, c14blank, c14norm)
+		c14nl, c14blank, c14space, c14norm)
 }
 
 var schemaScanners = []string{"notations/jschema/scanner", "rules/enum"}
@@ -74,6 +74,89 @@ func c14blank(c *core.Ctx) {
 			}
 		}
 	}
+}
+
+// c14space: a blank that is skipped must be skipped without a trace.
+func c14space(c *core.Ctx) {
+	const R = "C14.space"
+	c.Rule(R, "in every state where SPACE keeps the scanner in the same state on every path (it is skipped, not content), skipping it has no effect at all: no field store, no lexeme, no stack operation. A skipped blank that leaves a trace (a flag set, a context bit) makes `[ ]` mean something else than `[]`: zero versus one blank between two tokens changes the verdict")
+	c.Floor(R, 20)
+	for _, pk := range schemaScanners {
+		m := buildScanModel(c, pk)
+		// states that are ever installed (assigned to step, pushed on the return stack, initial)
+		installed := map[string]bool{m.initial: true}
+		lenOnly := true // every store of hasTrailingCharacters=true happens under lengthComputing
+		for _, n := range m.names {
+			for b := 0; b < 256; b++ {
+				for _, p := range m.rows[n][b].paths {
+					if p.next != "" {
+						installed[p.next] = true
+					}
+					for _, q := range p.pushes {
+						installed[q] = true
+					}
+					for _, st := range p.stores {
+						if strings.HasPrefix(st, "hasTrailingCharacters=") && !strings.HasSuffix(st, "=false") && !hasAtom(p, "load:&s.lengthComputing", true) {
+							lenOnly = false
+						}
+					}
+				}
+			}
+		}
+		for _, n := range m.names {
+			if !installed[n] {
+				continue // helper with the signature of a state, never the current state itself
+			}
+			rows := m.rows[n]
+			r := rows[' ']
+			if len(r.paths) == 0 {
+				continue
+			}
+			loop := true
+			for _, p := range r.paths {
+				if p.kind != "return" || p.next != "" {
+					loop = false
+				}
+			}
+			if !loop {
+				continue
+			}
+			same := 0
+			for b := 0x21; b < 0x7f; b++ {
+				if rows[b].key == r.key {
+					same++
+				}
+			}
+			if same > 3 {
+				continue // text-like state
+			}
+			key := pk + "." + n
+			pos := c.P.Pos(m.states[n].Pos())
+			var traces []string
+			for _, p := range r.paths {
+				if lenOnly && (hasAtom(p, "load:&s.hasTrailingCharacters", true) || hasAtom(p, "load:&s.lengthComputing", true)) {
+					continue // Len() mode only (the flag is set only under lengthComputing): boundary search, property C15, not a verdict
+				}
+				if len(p.finds) > 0 || len(p.pushes) > 0 || p.pops > 0 || len(p.stores) > 0 || p.unfinished != "" {
+					traces = append(traces, clip(p.String(), 160))
+				}
+			}
+			if len(traces) == 0 {
+				c.OK(R, key, pos, "state "+n+": a skipped SPACE leaves no trace")
+			} else {
+				c.Bad(R, key, pos, "state "+n+": a skipped SPACE leaves no trace", "SPACE stays in this state but has an effect, so the text with a blank here is scanned differently from the text without it: "+strings.Join(traces, " || "))
+			}
+		}
+	}
+}
+
+func hasAtom(p scanPath, key string, truth bool) bool {
+	for _, a := range p.atoms {
+		if a.Cond.Key() == key && a.Truth == truth {
+			return true
+		}
+	}
+	return false
 }
 
 func effectFreeSelfLoop(r scanRow) bool {
